@@ -11,7 +11,7 @@ def uringify(line, rng):
     p = line.split(" ")
     if p[0] in ("stream", "hwm"):
         p[1] = p[1].replace("tr=inproc", "tr=tcp").replace("tr=ipc", "tr=tcp")   # the backend serves tcp (and ipc) sessions
-        p[1] = p[1].replace(",noise=1", "")   # interfering peers pile up connections: that is the known finding of fan-in > 8
+        p[1] = p[1].replace(",noise=1", "")
         extra = ",uring=1"
         if rng.random() < 0.3:
             extra += ",cork=1"
@@ -30,7 +30,11 @@ def workloads(rng, tier):
     out.append(["!churn uring=1 %d 20 3000" % (24 if tier == "quick" else 120)])
     out.append(["!churn uring=1 10 6 100000"])
     out.append(["!fanin uring=1 6"])
-    out.append(["!fanin uring=1 %d" % rng.choice([9, 12, 16])])       # known finding: more than 8 connections
+    out.append(["!fanin uring=1 %d" % rng.choice([9, 12, 16, 32])])   # more connections than one mailbox chunk serves (repaired defect)
+    out.append(["!fanin uring=1,zc=1 %d %d 8192" % (rng.choice([8, 32]), 100 if tier == "quick" else 1000)])
+    # senders that close right after their last send: whatever still reaches the peer is undamaged (repaired use-after-free)
+    for zc in ("", ",zc=1"):
+        out.append(["!fanin rcvhwm=5000/uring=1,sndhwm=2000,linger=60000%s 32 1000 8192 closeint" % zc])
     out.append(["slowdrip type=PULL,hsivl=600,uring=1 300 hff00000000000000017f03"])   # known finding: no handshake deadline
     return out
 
@@ -80,7 +84,7 @@ def mk_components():
               "nontrivial": lambda c, i: any(l.isdigit() for l in i), "dist": lambda cs: {"cases": len(cs), "ops": sum(len(c) for c in cs)}}]
     for name, env in URING_ENVS:
         comps.append({"comp": "stack", "gen": workloads, "label": "uring-" + name, "shrink": False, "env": env,
-                      "nontrivial": lambda c, i: any(l.startswith(("delivered=", "hwm=ok", "churn=ok", "fanin=ok")) for l in i),
+                      "nontrivial": lambda c, i: any(l.startswith(("delivered=", "hwm=ok", "churn=ok", "fanin=ok", "fanin=intact")) for l in i),
                       "dist": lambda cs: {"cases": len(cs), "streams": sum(1 for c in cs if c[0].startswith("stream")),
                                           "hwm": sum(1 for c in cs if c[0].startswith("hwm")),
                                           "churn/fanin": sum(1 for c in cs if c[0].lstrip("!").startswith(("churn", "fanin")))}})
